@@ -7,7 +7,7 @@
         and self reference) x the textual form of the first reference; every query form x every maxDepth is resolved step by step.
      U  a resolution interleaved with network updates of the documents on its path (what the document cache is for).
      V  ONE didman operation (AddEndpoint with URL / reference, AddCompoundService, DeleteService, GetCompoundServiceEndpoint)
-        on every path graph.
+        on every path graph (also on a deactivated and on an unknown DID).
      S  sequences of didman operations and resolutions starting from empty managed documents. *)
 EXTENDS ServiceRef, Json
 
@@ -15,7 +15,6 @@ CONSTANTS Fam, MaxLen, Depths, FormLen     \* FormLen: the first reference is va
 
 ActiveDIDs == {"A", "B", "C"}
 Slots == ActiveDIDs \X {"t1", "t2"}
-Sl(i) == i    \* readability
 
 \* ------------------------------------------------------------------ path graphs
 \* DIDs and types are named in the order of their first appearance on the path (one graph per isomorphism class)
